@@ -111,7 +111,7 @@ def run_cmd_on(text, cmd, ext='.smt2'):
         e.pop('VERIF_CMD_DELAY', None)
         # bytes, decoded without newline translation: CR and CR LF must stay distinguishable from LF
         p = subprocess.run(list(cmd) + [fn], stdout=subprocess.PIPE, stderr=subprocess.PIPE, env=e, timeout=60)
-        return p.returncode, p.stdout.decode(errors='backslashreplace'), p.stderr.decode(errors='backslashreplace')
+        return p.returncode, p.stdout.decode('latin-1'), p.stderr.decode('latin-1')      # one character per byte: injective
     finally:
         shutil.rmtree(d, ignore_errors=True)
 
